@@ -688,6 +688,7 @@ func checkC14(p *Prog, r *Report) {
 	}
 	ruleJoinedTransactions(p, r)
 	ruleSinglePass(p, r)
+	ruleJoinedSentAsOnePacket(p, r)
 	ruleStickyState(p, r, "C14", map[string]bool{"cisco": true, "linux": true}, 8)
 	r.rule("R14.g", "The route delete / replace decisions of linux.diffRoutes keep their audited controlling conditions (tables/guards.tsv rows for C14): an old route is joined with the new one only for the same destination (address and prefix length), and deleted only while it is still marked present and not kept.")
 	ruleGuardTable(p, r, "R14.g", "C14")
@@ -1133,4 +1134,58 @@ func sameIface(a, b ssa.Value) bool {
 		return sameSlice(mi.X, b)
 	}
 	return false
+}
+
+// ruleJoinedSentAsOnePacket: R14.w.
+func ruleJoinedSentAsOnePacket(p *Prog, r *Report) {
+	r.rule("R14.w", "A joined change (`<delete>\\n<add>`: ACL move, same-destination route replacement) reaches the device as one packet: in every sender outside package console that looks at the halves of its command parameter (strings.Cut / strings.Split at \"\\n\") the argument of (*console.Conn).Send is the unsplit parameter itself, and that Send is not inside a loop. (Sent line by line, the device runs for one round trip without the moved ACL line — the lock-out the join exists to prevent.)")
+	n := 0
+	for _, fn := range allModFuncs(p) {
+		if pkgOfFunc(fn) == "console" || fn.Synthetic != "" {
+			continue
+		}
+		splits := false
+		for _, cs := range callsOf(fn) {
+			switch cs.calleeName() {
+			case "strings.Cut", "strings.Split", "strings.SplitN", "strings.SplitSeq", "strings.Lines":
+				for _, rt := range valueRoots(cs.In.Common().Args[0]) {
+					if _, ok := rt.(*ssa.Parameter); ok {
+						splits = true
+					}
+				}
+			}
+		}
+		sends := callsTo(fn, "(*console.Conn).Send")
+		for _, a := range fn.AnonFuncs {
+			sends = append(sends, callsTo(a, "(*console.Conn).Send")...)
+		}
+		if !splits || len(sends) == 0 {
+			continue
+		}
+		n++
+		bad := ""
+		for _, cs := range sends {
+			arg := cs.In.Common().Args[len(cs.In.Common().Args)-1]
+			whole := false
+			for _, rt := range valueRoots(arg) {
+				if pa, ok := rt.(*ssa.Parameter); ok && pa.Parent() == fn {
+					whole = true
+				} else {
+					whole = false
+					break
+				}
+			}
+			if !whole {
+				bad = "Send at " + p.ipos(cs.In) + " transmits " + descValue(arg, 0) + ", not the whole command"
+			}
+			for _, h := range cs.In.Parent().Blocks {
+				if body := naturalLoopBody(h); body != nil && body[cs.In.Block()] {
+					bad = "Send at " + p.ipos(cs.In) + " is inside a loop (one packet per line)"
+				}
+			}
+		}
+		r.add("R14.w", "joined-sent-as-one-packet|"+shortName(fn), p.ipos(sends[0].In), "the sender transmits its whole (possibly two-line) command with one Send", bad == "",
+			"a joined delete+add is split over several packets: "+bad)
+	}
+	r.floor("R14.w", "senders that handle joined commands", n, 2)
 }
